@@ -97,7 +97,7 @@ Proof.
 Qed.
 
 (* a step either keeps L or removes one element from it *)
-Lemma L_step : forall c s tid now s', step c s tid now = Some s' ->
+Lemma L_step0 : forall c s tid now s', step0 c s tid now = Some s' ->
   L c s' = L c s \/ exists a t b, L c s = a ++ t :: b /\ L c s' = a ++ b.
 Proof.
   intros c s [|w] now s' H; rewrite !L_Lm.
@@ -110,6 +110,18 @@ Proof.
     + right. eauto.
     + right. eauto.
   - apply step_worker in H. left. rewrite (worker_step_mp _ _ _ _ _ H). reflexivity.
+Qed.
+
+Lemma L_step : forall c s tid now s', step c s tid now = Some s' ->
+  L c s' = L c s \/ exists a t b, L c s = a ++ t :: b /\ L c s' = a ++ b.
+Proof.
+  intros c s tid now s' H. destruct (step_split _ _ _ _ _ H) as [H0|[-> HA]]; [eapply L_step0; eauto|].
+  unfold master_step_alt in HA.
+  destruct (mp s) as [| | | | |acc| | | | | | |] eqn:Emp; try discriminate HA.
+  destruct acc as [|x acc]; [discriminate HA|].
+  assert (E : L c (set_mp s (MDecide (x :: acc) [] (length (x :: acc)))) = L c s)
+    by (rewrite !L_Lm, Emp; reflexivity).
+  rewrite <- E. apply (L_step0 c _ 0 []). exact HA.
 Qed.
 
 Definition Lsorted (ord : list nat) (c : cfg) (s : state) : Prop :=
@@ -305,8 +317,8 @@ Proof.
   destruct (Nat.eqb_spec (nworkers c) 0); [lia|]. rewrite ?O. exact Ht.
 Qed.
 
-Lemma sf_inv_step : forall ord c s tid now s',
-  cinv c s -> sf_inv ord c s -> step c s tid now = Some s' -> sf_inv ord c s'.
+Lemma sf_inv_step0 : forall ord c s tid now s',
+  cinv c s -> sf_inv ord c s -> step0 c s tid now = Some s' -> sf_inv ord c s'.
 Proof.
   intros ord c s [|w] now s' CI I H x Hx; specialize (I x Hx);
     rewrite !L_Lm, !In_F in *.
@@ -471,8 +483,8 @@ Proof.
   apply (decide_not_waiting c (env s) t N P). rewrite D. reflexivity.
 Qed.
 
-Lemma wake_inv_step : forall s tid now s',
-  inv3 s -> step c s tid now = Some s' -> wake_inv c s'.
+Lemma wake_inv_step0 : forall s tid now s',
+  inv3 s -> step0 c s tid now = Some s' -> wake_inv c s'.
 Proof.
   intros s [|w] now s' [CI LS SF I] H.
   - apply step_master in H. unfold wake_inv in I.
@@ -511,14 +523,17 @@ Proof.
                        |apply wake_inv_init].
 Qed.
 
-Lemma inv3_step : forall s tid now s', inv3 s -> step c s tid now = Some s' -> inv3 s'.
+Lemma inv3_step0 : forall s tid now s', inv3 s -> step0 c s tid now = Some s' -> inv3 s'.
 Proof.
   intros s tid now s' I H. constructor.
-  - eapply cinv_step; eauto. apply I.
-  - eapply Lsorted_step; eauto. apply I.
-  - eapply sf_inv_step; eauto; apply I.
-  - eapply wake_inv_step; eauto.
+  - eapply cinv_step0; eauto. apply I.
+  - eapply Lsorted_step; [apply I|eapply step0_step; eauto].
+  - eapply sf_inv_step0; eauto; apply I.
+  - eapply wake_inv_step0; eauto.
 Qed.
+
+Lemma inv3_step : forall s tid now s', inv3 s -> step c s tid now = Some s' -> inv3 s'.
+Proof. apply (lift_step c inv3); [intros s I; apply I|apply inv3_step0]. Qed.
 
 Lemma inv3_reachable : forall e0 st0 clk s, reachable c e0 st0 clk s -> inv3 s.
 Proof.
@@ -699,7 +714,7 @@ Proof.
   pose proof (L_length_step _ _ _ _ _ H). lia.
 Qed.
 
-Lemma pot_step : forall c s tid now s', tinv c s -> step c s tid now = Some s' -> pot c s' < pot c s.
+Lemma pot_step0 : forall c s tid now s', tinv c s -> step0 c s tid now = Some s' -> pot c s' < pot c s.
 Proof.
   intros c s [|w] now s' [CI LL] H; unfold pot; rewrite !L_Lm in *.
   - apply step_master in H.
@@ -761,6 +776,21 @@ Proof.
       lia.
 Qed.
 
+(* the shortcut move of the master costs as much as the three steps it stands for *)
+Lemma pot_step : forall c s tid now s', tinv c s -> step c s tid now = Some s' -> pot c s' < pot c s.
+Proof.
+  intros c s tid now s' I H.
+  destruct (step_split _ _ _ _ _ H) as [H0|[-> HA]]; [eapply pot_step0; eauto|].
+  assert (O : cv_owner s = Some 0).
+  { destruct I as [CI _]. destruct (ci_owner _ _ CI) as [OM _]. apply OM. unfold master_step_alt in HA.
+    destruct (mp s); try discriminate HA. reflexivity. }
+  destruct (alt_three _ _ _ O HA) as (s1 & s2 & H1 & H2 & H3).
+  pose proof (tinv_step _ _ _ _ _ I (step0_step _ _ _ _ _ H1)) as I1.
+  pose proof (tinv_step _ _ _ _ _ I1 (step0_step _ _ _ _ _ H2)) as I2.
+  pose proof (pot_step0 _ _ _ _ _ I H1). pose proof (pot_step0 _ _ _ _ _ I1 H2).
+  pose proof (pot_step0 _ _ _ _ _ I2 H3). lia.
+Qed.
+
 Lemma run_pot : forall c sched s s', tinv c s -> run c s sched = Some s' ->
   length sched + pot c s' <= pot c s.
 Proof.
@@ -796,15 +826,15 @@ Proof.
   - (* cyclic: the master raised before anything was started *)
     destruct sched as [|[tid now] r]; [simpl; lia|]. exfalso. simpl in H.
     assert (E : step c (init c e0 st0 clk) tid now = None); [|rewrite E in H; discriminate].
-    destruct tid as [|w]; unfold step, master_step, worker_step, init; simpl; rewrite ?O;
-      destruct now; reflexivity.
+    destruct tid as [|w]; unfold step, master_step_alt, master_step, worker_step, init; simpl; rewrite ?O;
+      [destruct now as [|? [|? ?]]; reflexivity|destruct now; reflexivity].
 Qed.
 
 (* and a terminal state has no successor for the master *)
 Lemma terminal_no_master_step : forall c s now, terminal s = true -> step c s 0 now = None.
 Proof.
-  intros c s now T. simpl. destruct now; auto. unfold terminal in T. unfold master_step.
-  destruct (mp s); try discriminate; reflexivity.
+  intros c s now T. simpl. unfold terminal in T. unfold master_step_alt, master_step.
+  destruct now as [|? [|? ?]]; auto; destruct (mp s); try discriminate; reflexivity.
 Qed.
 
 (* ================= every reachable state can be driven to a terminal state ================= *)
